@@ -404,6 +404,25 @@ class Gen:
     if not cands:
       return self.gen_upstream_use()
     up, exports = r.choice(cands)
+    pairs = [(b, d) for d, bs in sorted(exports.get("bases", {}).items()) for b in bs
+             if b in exports["classes"] and d in exports["classes"]]
+    if pairs and r.random() < 0.6:
+      # a union of a class of the upstream module with one of its subclasses
+      b, d = r.choice(pairs)
+      if r.random() < 0.5:
+        b, d = d, b
+      if r.random() < 0.5:
+        c = self.fresh("u")
+        self.emit("%s = (%s.%s() if %s else %s.%s())" % (c, up, b, self.unknown_cond(), up, d))
+        self.consts.append((c, "const"))
+      else:
+        f = self.fresh("f")
+        self.emit("def %s(flag=None):" % f)
+        self.emit("  if flag:")
+        self.emit("    return %s.%s()" % (up, b))
+        self.emit("  return %s.%s()" % (up, d))
+        self.emit()
+        self.funcs.append((f, 0, False))
     cls = r.sample(exports["classes"], min(len(exports["classes"]), r.randrange(2, 5)))
     for i, cn in enumerate(cls):
       k = r.random()
@@ -610,6 +629,14 @@ class Gen:
   def gen_upstream_use(self):
     r = self.r
     up, exports = r.choice(self.upstream)
+    pairs = [(b, d) for d, bs in sorted(exports.get("bases", {}).items()) for b in bs
+             if b in exports.get("classes", []) and d in exports.get("classes", [])]
+    if pairs and r.random() < 0.35:
+      b, d = r.choice(pairs)
+      c = self.fresh("u")
+      self.emit("%s = (%s.%s() if %s else %s.%s())" % (c, up, d, self.unknown_cond(), up, b))
+      self.consts.append((c, "const"))
+      return
     names = exports.get("consts", []) + exports.get("funcs", []) + exports.get("classes", [])
     if not names:
       return
@@ -684,7 +711,8 @@ class Gen:
   def exports(self):
     return {"consts": [c for c, _ in self.consts if not c.startswith("_")],
             "funcs": [f for f, _, _ in self.funcs],
-            "classes": [c for c, _, _ in self.classes]}
+            "classes": [c for c, _, _ in self.classes],
+            "bases": {c: list(b) for c, b in self.bases_of.items() if b}}
 
 
 NAME_POOL = ("Base", "Derived", "Leaf", "Shape", "Circle", "Item", "Count")
